@@ -2,7 +2,7 @@
 PROP = "C01"
 LEVEL = "exploration"
 ENGINE = "pyvc+bounded"
-HARNESS_MODULES = ["contracts.c01_z3_convert"]
+HARNESS_MODULES = ["contracts.c01_z3_convert", "contracts.c01_z3_backend"]
 
 
 def bounded(tier, seed, rep):
